@@ -101,6 +101,7 @@ func VerifHarness_C04_SharedStateIsReadOnly() {
 	t := verifFullTable()
 	names := verifNames(t)
 	name := names[verifrt.Choose("fn", len(names))]
+	verifrt.Tag("fnName", name)
 	fn := t[name]
 	n := verifrt.Choose("nargs", 4)
 	verifrt.Assume(fn.MinArity <= n && n <= fn.MaxArity)
